@@ -86,7 +86,7 @@ fn ec_fields(t: &SolarTime) -> (i64, i64, i64, i64, i64, i64) {
 
 fn compositions(ctx: &Ctx, sink: &mut Sink) {
   let mut rng = ctx.rng(901);
-  let n = if ctx.quick() { 3000 } else { 90000 };
+  let n = if ctx.quick() { 15000 } else { 90000 };
   for k in 0..n {
     // from AD 260 on: the reform seams of AD 9-25 and 236-240 are C02 findings, not eight-character defects
     let j = rng.range(1816000, 5373484 - 800);
@@ -104,7 +104,7 @@ fn compositions(ctx: &Ctx, sink: &mut Sink) {
 
 fn searches(ctx: &Ctx, sink: &mut Sink) {
   let mut rng = ctx.rng(902);
-  let n = if ctx.quick() { 300 } else { 6000 };
+  let n = if ctx.quick() { 1200 } else { 6000 };
   let mut done = 0;
   let mut guard = 0;
   while done < n && guard < n * 4 {
